@@ -198,6 +198,23 @@ func (f *Fam) Gen(r *rand.Rand, i int) string {
 
 func (f *Fam) applyWrite(in *inst, w []string) {
 	s := in.store(w[1])
+	// every other write arrives the way a block's writes do: through a cache-wrapped multistore that is then flushed
+	// (which of the two ways is decided by the operation text, so that replays and the second instance agree)
+	h := 0
+	for _, c := range strings.Join(w, " ") {
+		h = h*31 + int(c)
+	}
+	if h%2 == 0 {
+		cms := in.ms.CacheMultiStore()
+		defer cms.Write()
+		if w[1] == "t" {
+			s = cms.GetKVStore(in.tkey)
+		} else {
+			i, _ := strconv.Atoi(w[1])
+			s = cms.GetKVStore(in.keys[i])
+		}
+		f.extra["writes-through-cache-multistore"]++
+	}
 	if w[0] == "set" {
 		s.Set(unhx(w[2]), unhx(w[3]))
 	} else {
